@@ -89,6 +89,17 @@ def mk_client_side(clock=None, key=KEY, status=None):
     return c
 
 
+def retry_arg(mode, name='retry_spelling'):
+    """the retry argument as an application may legitimately pass it: the enum member itself, its plain int value (the
+    documented form of UdpClient.send, whose default is the int -1) or an equal but distinct enum instance built from the value"""
+    how = choose(3, name)
+    if how == 0:
+        return mode
+    if how == 1:
+        return int(mode.value)
+    return type(mode)(int(mode.value))
+
+
 def new_key(name):
     """EllipticCurvePrivateKey: a model key under sx, a real P-256 key in a concrete replay"""
     if core._rp() is not None:
